@@ -117,8 +117,13 @@ CLAIMS = {
              "equivalence is preserved by pointwise nodes whose arguments are all in the set and by aggregates. Obligation regenerated "
              "every run: a dataflow analysis over every dumped graph proves every group-suffixed rule/conversion node constant on its "
              "group except downstream of the five listed known (node, argument) pairs, each of which is exhibited on the real engine "
-             "on every run. Engine runs check every group-level column of the default graph on generated populations.",
-        technique="Coq proof (Levels.group_constant) + reflective dataflow on the regenerated loader graph + directed engine search",
+             "on every run. End to end on the model (TableConst.const_nodes_sound): for the concrete Coq engine Table.sem and any relation E "
+             "between rows, the verified dataflow const_nodes marks only columns that are constant on E (rules with declared dtype and rounding, "
+             "unit conversions, group reductions keyed by a constant id column; ids of coarser levels assumed constant, their nesting is C12); "
+             "run on every regenerated graph it leaves exactly the five known pairs. Engine runs check every group-level column of the default "
+             "graph on generated populations.",
+        technique="Coq proof (TableConst.const_nodes_sound end-to-end on the model engine; Levels.group_constant) + verified reflective dataflow on the "
+                  "regenerated loader graph + directed engine search",
         design="6/C15"),
     "C18": dict(
         text="Theorems (for all schedules and all rational arguments): the model of piecewise_polynomial returns the "
